@@ -364,6 +364,69 @@ def run_table(run: Run, tbl, label, cases, formula, Formula, me):
                           trace=traceback.format_exc()[-400:])
 
 
+def mixture_keywords(run: Run, tbl, label, formula, Formula, me):
+    """the density given by keyword to mix_by_weight / mix_by_volume: natural_density=x is the natural density read
+    back and density = x / ratio, density=x is stored and natural_density = x * ratio - whether or not every
+    component has a density of its own (from which the mixers would otherwise estimate one)"""
+    from periodictable.formulas import mix_by_weight, mix_by_volume
+    rng = run.rng
+    for i in range(250 if run.tier == "quick" else 4000):
+        ncomp = rng.choice([1, 2, 2, 3])
+        all_dense = rng.random() < 0.7
+        structs, denss = [], []
+        for j in range(ncomp):
+            s = [(rng.choice([1, 2, 3, 6, 0.5]), gens.gen_atom(rng)) for _ in range(rng.randint(1, 3))]
+            structs.append(s)
+            denss.append(round(rng.uniform(0.3, 20), 3) if all_dense or rng.random() < 0.5 else None)
+        qs = [rng.choice([1, 2, 3, 10, 0.5, 25, 70, round(rng.uniform(0.01, 100), 3)]) for _ in range(ncomp)]
+        kwname = rng.choice(["natural_density", "natural_density", "density"])
+        x = rng.choice([1.02, 1.1, 0.9982, 2.5, 7.87, round(rng.uniform(0.05, 25), 3)])
+        as_string = rng.random() < 0.3 and all(len({k for _, k in s}) == len(s) for s in structs)
+        c = dict(kind="mix-keyword", components=structs, densities=denss, quantities=qs, keyword=kwname, value=x,
+                 components_as="string" if as_string else "Formula")
+        if label != "public":
+            c["table"] = label
+        try:
+            comps = []
+            for s, d in zip(structs, denss):
+                if as_string:
+                    comps.append(render_flat(s, tbl) + ("@%r" % d if d is not None else ""))
+                else:
+                    comps.append(Formula(structure=pyside.struct_objs(s, tbl), density=d))
+            dense = all(d is not None or (len(pyside.flat_counts(s)) == 1 and
+                                          pyside.atom_of(next(iter(pyside.flat_counts(s))), tbl).density)
+                        for s, d in zip(structs, denss))
+            by_vol = dense and rng.random() < 0.4
+            c["by"] = "volume" if by_vol else "weight"
+            fn = mix_by_volume if by_vol else mix_by_weight
+            args = [v for pair in zip(comps, qs) for v in pair]
+            r = fn(*args, table=tbl, **{kwname: x})
+            counts = {pyside.key_of(a): Fraction(n) for a, n in r.atoms.items()}
+            ratio = exact_ratio(counts, tbl, me)
+            nd, d = r.natural_density, r.density
+        except Exception as e:  # noqa
+            run.violation("mixture with the %s keyword raised %s: %s" % (kwname, type(e).__name__, str(e)[:80]), c,
+                          kind="mix-keyword")
+            continue
+        run.count(key=(label, "mixkw", repr(c)), nontrivial=any(k[1] or k[2] for k in counts), sample=None,
+                  tag="mix-keyword" if label == "public" else "%s:mix-keyword" % label)
+        if not ratio:
+            continue
+        if kwname == "natural_density":
+            if not close(nd, x):
+                run.violation("natural_density keyword of a mixture then read back differs", c, kind="mix-keyword",
+                              got=nd, expected=x, all_components_have_density=dense)
+            elif not close(d, float(x / ratio)):
+                run.violation("mixture density != natural_density keyword / ratio", c, kind="mix-keyword",
+                              got=d, expected=float(x / ratio))
+        else:
+            if d != x:
+                run.violation("density keyword of a mixture not stored", c, kind="mix-keyword", got=d, expected=x)
+            elif not close(nd, float(x * ratio)):
+                run.violation("mixture natural_density != density keyword * ratio", c, kind="mix-keyword",
+                              got=nd, expected=float(x * ratio))
+
+
 def run(run: Run) -> int:
     pt = import_repo()
     from periodictable.formulas import formula, Formula
@@ -374,10 +437,12 @@ def run(run: Run) -> int:
     n = 3000 if run.tier == "quick" else 80000
     cases = [gen_case(run.rng, radii) for _ in range(n)]
     run_table(run, tbl, "public", cases, formula, Formula, me)
+    mixture_keywords(run, tbl, "public", formula, Formula, me)
     # the same relations over a private table with revised element masses (table=T for every string)
     priv = private_table()
     try:
         run_table(run, priv, "private", [gen_case(run.rng, radii) for _ in range(n // 4)], formula, Formula, me)
+        mixture_keywords(run, priv, "private", formula, Formula, me)
     finally:
         from periodictable import core
         core.PRIVATE_TABLES.pop("c12-private", None)
